@@ -64,6 +64,15 @@ pub trait Uni: Clone + Merge + Serialize + DeserializeOwned + std::fmt::Debug + 
     fn estimate_pair(&self) -> Option<(f64, f64)>;
     fn extend_val(&mut self, xs: &[f64]);
     fn extend_ref(&mut self, xs: &[f64]);
+    /// the same through iterators whose size_hint lower bound is 0 (filter)
+    fn extend_val_unsized(&mut self, xs: &[f64]);
+    fn extend_ref_unsized(&mut self, xs: &[f64]);
+    fn collect_val_unsized(xs: &[f64]) -> Self {
+        xs.iter().copied().filter(|x| x.to_bits() != 0x7ff8_dead_beef_0001).collect()
+    }
+    fn collect_ref_unsized(xs: &[f64]) -> Self {
+        xs.iter().filter(|x| x.to_bits() != 0x7ff8_dead_beef_0001).collect()
+    }
     /// Judge every accessor against the exact statistics of the data
     /// (`ex` computed to order >= Self::ORDER). Statistics undefined for the
     /// sample size are left to C10/C16.
@@ -142,6 +151,12 @@ impl Uni for Mean {
     fn extend_ref(&mut self, xs: &[f64]) {
         self.extend(xs.iter())
     }
+    fn extend_val_unsized(&mut self, xs: &[f64]) {
+        self.extend(xs.iter().copied().filter(|x| x.to_bits() != 0x7ff8_dead_beef_0001))
+    }
+    fn extend_ref_unsized(&mut self, xs: &[f64]) {
+        self.extend(xs.iter().filter(|x| x.to_bits() != 0x7ff8_dead_beef_0001))
+    }
     fn judge(&self, ex: &Exact, o: &mut Obs) -> TestResult {
         judge_mean_len("Mean", Mean::len(self), self.mean(), ex, o)
     }
@@ -184,6 +199,12 @@ impl Uni for Variance {
     }
     fn extend_ref(&mut self, xs: &[f64]) {
         self.extend(xs.iter())
+    }
+    fn extend_val_unsized(&mut self, xs: &[f64]) {
+        self.extend(xs.iter().copied().filter(|x| x.to_bits() != 0x7ff8_dead_beef_0001))
+    }
+    fn extend_ref_unsized(&mut self, xs: &[f64]) {
+        self.extend(xs.iter().filter(|x| x.to_bits() != 0x7ff8_dead_beef_0001))
     }
     fn judge(&self, ex: &Exact, o: &mut Obs) -> TestResult {
         judge_mean_len("Variance", Variance::len(self), self.mean(), ex, o)?;
@@ -228,6 +249,12 @@ impl Uni for Skewness {
     }
     fn extend_ref(&mut self, xs: &[f64]) {
         self.extend(xs.iter())
+    }
+    fn extend_val_unsized(&mut self, xs: &[f64]) {
+        self.extend(xs.iter().copied().filter(|x| x.to_bits() != 0x7ff8_dead_beef_0001))
+    }
+    fn extend_ref_unsized(&mut self, xs: &[f64]) {
+        self.extend(xs.iter().filter(|x| x.to_bits() != 0x7ff8_dead_beef_0001))
     }
     fn judge(&self, ex: &Exact, o: &mut Obs) -> TestResult {
         judge_mean_len("Skewness", Skewness::len(self), self.mean(), ex, o)?;
@@ -274,6 +301,12 @@ impl Uni for Kurtosis {
     }
     fn extend_ref(&mut self, xs: &[f64]) {
         self.extend(xs.iter())
+    }
+    fn extend_val_unsized(&mut self, xs: &[f64]) {
+        self.extend(xs.iter().copied().filter(|x| x.to_bits() != 0x7ff8_dead_beef_0001))
+    }
+    fn extend_ref_unsized(&mut self, xs: &[f64]) {
+        self.extend(xs.iter().filter(|x| x.to_bits() != 0x7ff8_dead_beef_0001))
     }
     fn judge(&self, ex: &Exact, o: &mut Obs) -> TestResult {
         judge_mean_len("Kurtosis", Kurtosis::len(self), self.mean(), ex, o)?;
@@ -353,6 +386,12 @@ macro_rules! impl_moments {
             fn extend_ref(&mut self, xs: &[f64]) {
                 self.extend(xs.iter())
             }
+            fn extend_val_unsized(&mut self, xs: &[f64]) {
+                self.extend(xs.iter().copied().filter(|x| x.to_bits() != 0x7ff8_dead_beef_0001))
+            }
+            fn extend_ref_unsized(&mut self, xs: &[f64]) {
+                self.extend(xs.iter().filter(|x| x.to_bits() != 0x7ff8_dead_beef_0001))
+            }
             fn judge(&self, ex: &Exact, o: &mut Obs) -> TestResult {
                 let nm = $name;
                 judge_mean_len(nm, <$T>::len(self), self.mean(), ex, o)?;
@@ -430,6 +469,12 @@ impl Uni for Min {
     fn extend_ref(&mut self, xs: &[f64]) {
         self.extend(xs.iter())
     }
+    fn extend_val_unsized(&mut self, xs: &[f64]) {
+        self.extend(xs.iter().copied().filter(|x| x.to_bits() != 0x7ff8_dead_beef_0001))
+    }
+    fn extend_ref_unsized(&mut self, xs: &[f64]) {
+        self.extend(xs.iter().filter(|x| x.to_bits() != 0x7ff8_dead_beef_0001))
+    }
     fn judge(&self, ex: &Exact, o: &mut Obs) -> TestResult {
         o.evals += 1;
         if self.min() != ex.min {
@@ -475,6 +520,16 @@ impl Uni for Max {
             Estimate::add(self, *x)
         }
     }
+    fn extend_val_unsized(&mut self, xs: &[f64]) {
+        for &x in xs {
+            Estimate::add(self, x)
+        }
+    }
+    fn extend_ref_unsized(&mut self, xs: &[f64]) {
+        for x in xs {
+            Estimate::add(self, *x)
+        }
+    }
     fn judge(&self, ex: &Exact, o: &mut Obs) -> TestResult {
         o.evals += 1;
         if self.max() != ex.max {
@@ -495,6 +550,14 @@ pub trait Pair: Clone + Merge + Serialize + DeserializeOwned + std::fmt::Debug +
     fn snapshot(&self) -> Snapshot;
     fn extend_val(&mut self, xs: &[(f64, f64)]);
     fn extend_ref(&mut self, xs: &[(f64, f64)]);
+    fn extend_val_unsized(&mut self, xs: &[(f64, f64)]);
+    fn extend_ref_unsized(&mut self, xs: &[(f64, f64)]);
+    fn collect_val_unsized(xs: &[(f64, f64)]) -> Self {
+        xs.iter().copied().filter(|p| p.0.to_bits() != 0x7ff8_dead_beef_0001).collect()
+    }
+    fn collect_ref_unsized(xs: &[(f64, f64)]) -> Self {
+        xs.iter().filter(|p| p.0.to_bits() != 0x7ff8_dead_beef_0001).collect()
+    }
 }
 
 impl Pair for WeightedMean {
@@ -523,6 +586,12 @@ impl Pair for WeightedMean {
     }
     fn extend_ref(&mut self, xs: &[(f64, f64)]) {
         self.extend(xs.iter())
+    }
+    fn extend_val_unsized(&mut self, xs: &[(f64, f64)]) {
+        self.extend(xs.iter().copied().filter(|p| p.0.to_bits() != 0x7ff8_dead_beef_0001))
+    }
+    fn extend_ref_unsized(&mut self, xs: &[(f64, f64)]) {
+        self.extend(xs.iter().filter(|p| p.0.to_bits() != 0x7ff8_dead_beef_0001))
     }
 }
 
@@ -564,6 +633,12 @@ impl Pair for WeightedMeanWithError {
     fn extend_ref(&mut self, xs: &[(f64, f64)]) {
         self.extend(xs.iter())
     }
+    fn extend_val_unsized(&mut self, xs: &[(f64, f64)]) {
+        self.extend(xs.iter().copied().filter(|p| p.0.to_bits() != 0x7ff8_dead_beef_0001))
+    }
+    fn extend_ref_unsized(&mut self, xs: &[(f64, f64)]) {
+        self.extend(xs.iter().filter(|p| p.0.to_bits() != 0x7ff8_dead_beef_0001))
+    }
 }
 
 impl Pair for Covariance {
@@ -603,5 +678,11 @@ impl Pair for Covariance {
     }
     fn extend_ref(&mut self, xs: &[(f64, f64)]) {
         self.extend(xs.iter())
+    }
+    fn extend_val_unsized(&mut self, xs: &[(f64, f64)]) {
+        self.extend(xs.iter().copied().filter(|p| p.0.to_bits() != 0x7ff8_dead_beef_0001))
+    }
+    fn extend_ref_unsized(&mut self, xs: &[(f64, f64)]) {
+        self.extend(xs.iter().filter(|p| p.0.to_bits() != 0x7ff8_dead_beef_0001))
     }
 }
